@@ -166,7 +166,7 @@ class PluralityVeto(RankingElection):
                     scores=scores,
                 )
 
-            self.election_states.append(new_state)
+                self.election_states.append(new_state)
 
         else:
             tiebreaks = {}
